@@ -96,6 +96,7 @@ pub uninterp spec fn curve_built(pts: Seq<Point2>, tol: real, closed: bool) -> C
 pub uninterp spec fn curve_build_fails(pts: Seq<Point2>, tol: real, closed: bool) -> bool;
 pub uninterp spec fn curve_reversed(c: Curve2) -> Curve2;
 pub uninterp spec fn curve_len(c: Curve2) -> real;
+pub uninterp spec fn curve_tol_of(c: Curve2) -> real;
 pub uninterp spec fn closest_len(c: Curve2, p: Point2) -> real;      // length along the curve of the point closest to p
 pub uninterp spec fn curve_dist(c: Curve2, p: Point2) -> real;       // distance from p to the curve
 pub uninterp spec fn span_of(c: Curve2, r: Ray) -> Option<SpanningRay>;
@@ -116,6 +117,9 @@ impl Curve2 {
     pub fn reversed(&self) -> (r: Curve2) ensures r == curve_reversed(*self) { unimplemented!() }
     #[verifier::external_body]
     pub fn length(&self) -> (r: f64) ensures rv(r) == curve_len(*self) { unimplemented!() }
+    // the point tolerance the curve was built with (an opaque value: nothing in the C10 units depends on it)
+    #[verifier::external_body]
+    pub fn tol(&self) -> (r: f64) ensures rv(r) == curve_tol_of(*self) { unimplemented!() }
     #[verifier::external_body]
     pub fn at_closest_to_point(&self, p: &Point2) -> (r: CurveStation2) ensures r == st_closest(*self, *p) { unimplemented!() }
     #[verifier::external_body]
